@@ -361,7 +361,25 @@ def text_nearmiss_sessions(rng, tier):
             N = {"atoms": [dict(a) for a in M["atoms"]], "bonds": [b for jj, b in enumerate(M["bonds"]) if jj != j]}
         S = Session(f"textnear-{i}")
         ids = []
-        for X in (M, N):
+        if i % 8 == 3 and M["bonds"]:
+            # a multi-attachment bond (star atom, ENDPTS list spelled with runs of blanks) against the same file without that bond line
+            for attempt in range(6):
+                lines, _ = textgen.render_v3000(M, rng, opts={"cont": 0, "star": True, "wide": True, "extras": False, "trail": False, "dt": False, "tailblank": False})
+                star = [l for l in lines if "ENDPTS=(" in l]
+                if star:
+                    break
+            if star:
+                rest = []
+                for l in lines:
+                    if "ENDPTS=(" in l:
+                        continue
+                    t = l.split()
+                    if len(t) >= 5 and t[:3] == ["M", "V30", "COUNTS"]:
+                        t[4] = str(int(t[4]) - len(star))
+                        l = "M  V30 " + " ".join(t[2:])
+                    rest.append(l)
+                ids = [S.read(lines, "V3000", "C07", floats=textgen.floats_of(M)), S.read(rest, "V3000", "C07", floats=textgen.floats_of(M))]
+        for X in ((M, N) if not ids else ()):
             if single:
                 lines, _ = textgen.render_v3000(X, rng, opts={"cont": 0, "extras": False, "defaults": False, "star": False, "dt": False, "tailblank": False})
                 out_lines = []
